@@ -15,6 +15,7 @@ import (
 
 	sqlite3 "github.com/mattn/go-sqlite3"
 	"github.com/rqlite/rqlite/v10/command/proto"
+	"github.com/rqlite/rqlite/v10/verifx"
 	"verifsim/core"
 	"verifsim/node"
 	"verifsim/sim"
@@ -38,7 +39,7 @@ import (
 // appears, a new write is accepted and the configuration is still the file's.
 
 type c33Op struct {
-	Kind string `json:"k"` // ins mix async snap load boot isolate heal run
+	Kind string `json:"k"` // ins mix fk async snap load boot isolate heal run
 	N    int    `json:"n,omitempty"`
 	M    int    `json:"m,omitempty"`
 	Ms   int    `json:"ms,omitempty"`
@@ -51,10 +52,14 @@ type c33Peer struct {
 }
 
 type c33Recovery struct {
-	Victims []int     `json:"victims"` // nodes that are recovered (first is the primary victim); 0 = leader
+	Victims []int     `json:"victims"` // members that are recovered (first is the primary victim); 0 = leader
 	Mode    string    `json:"mode"`    // stop | stop-nosnap | crash
 	Peers   []c33Peer `json:"peers"`   // content of the peers file, same on every recovered node
 	MoveTo  int       `json:"move_to"` // primary victim restarts on host 10.0.0.<MoveTo> (0 = same address)
+	// CrashAt: the primary victim's process dies at this point INSIDE the recovery
+	// (directory image taken at the hook), and is then started again on that image,
+	// peers.json still in place ("" = recovery runs to completion the first time).
+	CrashAt string `json:"crash_at,omitempty"`
 }
 
 type c33Scenario struct {
@@ -64,6 +69,10 @@ type c33Scenario struct {
 	Tick  float64     `json:"tick"`
 	Ops   []c33Op     `json:"ops"`
 	Rec   c33Recovery `json:"rec"`
+	// Second round (only if the first recovery produced a working cluster): more
+	// history on the recovered nodes, then shutdown and recovery AGAIN.
+	Ops2 []c33Op      `json:"ops2,omitempty"`
+	Rec2 *c33Recovery `json:"rec2,omitempty"`
 }
 
 func c33Gen(r *core.Rand, tier string) any {
@@ -79,10 +88,16 @@ func c33Gen(r *core.Rand, tier string) any {
 	if r.Bool(0.4) {
 		sc.Knobs.SnapshotReapThreshold = r.Range(2, 4)
 	}
+	sc.Knobs.FKConstraints = r.Bool(0.4)
 	nops := r.Range(4, 25)
 	isolated := false
 	for i := 0; i < nops; i++ {
 		x := r.Intn(100)
+		if sc.Knobs.FKConstraints && r.Bool(0.3) {
+			// parent/child statements, many of which the live node rejects
+			sc.Ops = append(sc.Ops, c33Op{Kind: "fk", N: r.Intn(1000)})
+			continue
+		}
 		switch {
 		case x < 30:
 			sc.Ops = append(sc.Ops, c33Op{Kind: "ins", N: r.Range(1, 6)})
@@ -151,8 +166,47 @@ func c33Gen(r *core.Rand, tier string) any {
 		j := r.Intn(i + 1)
 		rec.Peers[i], rec.Peers[j] = rec.Peers[j], rec.Peers[i]
 	}
+	if r.Bool(0.25) {
+		rec.CrashAt = c33CrashPoints[r.Intn(len(c33CrashPoints))]
+	}
+	// second round: needs a working cluster after the first one (kinds 0, 1, 3)
+	if (kind == 0 || kind == 1 || kind == 3) && r.Bool(0.5) {
+		for i, n := 0, r.Range(1, 8); i < n; i++ {
+			x := r.Intn(100)
+			switch {
+			case sc.Knobs.FKConstraints && x < 20:
+				sc.Ops2 = append(sc.Ops2, c33Op{Kind: "fk", N: r.Intn(1000)})
+			case x < 45:
+				sc.Ops2 = append(sc.Ops2, c33Op{Kind: "ins", N: r.Range(1, 5)})
+			case x < 60:
+				sc.Ops2 = append(sc.Ops2, c33Op{Kind: "mix", N: r.Intn(1000)})
+			case x < 85:
+				// a snapshot after the recovery snapshot is an incremental one
+				sc.Ops2 = append(sc.Ops2, c33Op{Kind: "snap", N: r.Intn(4), M: r.Intn(3)})
+			case x < 92:
+				sc.Ops2 = append(sc.Ops2, c33Op{Kind: "run", Ms: r.Range(50, 3000)})
+			default:
+				sc.Ops2 = append(sc.Ops2, c33Op{Kind: "async", N: r.Range(1, 3), M: r.Intn(25)})
+			}
+		}
+		r2 := &c33Recovery{Mode: []string{"stop", "stop-nosnap", "crash", "crash"}[r.Intn(4)]}
+		if r.Bool(0.5) {
+			// the (then) leader alone
+			r2.Victims = []int{0}
+			r2.Peers = []c33Peer{{ID: "", Host: 0}}
+		} else {
+			// every member of the recovered cluster, same file everywhere, same addresses
+			r2.Victims = []int{-1}
+		}
+		if r.Bool(0.2) {
+			r2.CrashAt = c33CrashPoints[r.Intn(len(c33CrashPoints))]
+		}
+		sc.Rec2 = r2
+	}
 	return sc
 }
+
+var c33CrashPoints = []string{"store.recover.after-restore", "store.recover.after-replay", "store.recover.after-snapshot", "store.recover.after-log-delete"}
 
 // ---------------------------------------------------------------- SQL workload (deterministic: no time, no random)
 
@@ -182,11 +236,41 @@ func c33Mix(k int) []string {
 	}
 }
 
+// Parent/child workload for stores with foreign-key enforcement. With the
+// constraint enforced several of these are rejected (statement-level error,
+// nothing applied); all of them are still entries of the raft log.
+var c33FKSchema = []string{
+	"CREATE TABLE parent (id INTEGER PRIMARY KEY, name TEXT)",
+	"CREATE TABLE child (id INTEGER PRIMARY KEY, pid INTEGER REFERENCES parent(id), v INTEGER)",
+	"CREATE TABLE child2 (id INTEGER PRIMARY KEY, pid INTEGER REFERENCES parent(id) ON DELETE CASCADE, v INTEGER)",
+}
+
+func c33FK(k int) (stmts []string, tx bool) {
+	switch k % 9 {
+	case 0, 1:
+		return []string{fmt.Sprintf("INSERT INTO parent(name) VALUES('p-%d')", k)}, false
+	case 2:
+		return []string{fmt.Sprintf("INSERT INTO child(pid,v) VALUES((SELECT MAX(id) FROM parent),%d)", k)}, false
+	case 3: // no such parent
+		return []string{fmt.Sprintf("INSERT INTO child(pid,v) VALUES(%d,%d)", 900000+k, k)}, false
+	case 4: // parent still referenced by child (no action = refuse)
+		return []string{"DELETE FROM parent WHERE id = (SELECT MIN(pid) FROM child WHERE pid IS NOT NULL)"}, false
+	case 5:
+		return []string{fmt.Sprintf("INSERT INTO child2(pid,v) VALUES((SELECT MIN(id) FROM parent),%d)", k)}, false
+	case 6: // cascades to child2 when enforced
+		return []string{"DELETE FROM parent WHERE id NOT IN (SELECT pid FROM child WHERE pid IS NOT NULL) AND id IN (SELECT pid FROM child2 WHERE pid IS NOT NULL)"}, false
+	case 7: // transaction with a violating statement in the middle: rolled back as a whole when enforced
+		return []string{fmt.Sprintf("INSERT INTO parent(name) VALUES('tx-%d')", k), fmt.Sprintf("INSERT INTO child2(pid,v) VALUES(%d,%d)", 800000+k, k), c33Insert(500000 + k)}, true
+	default: // re-parent to a missing parent
+		return []string{fmt.Sprintf("UPDATE child SET pid = %d WHERE id = (SELECT MIN(id) FROM child)", 700000+k)}, false
+	}
+}
+
 var c33RegOnce sync.Once
 
 // c33MakeDB builds a SQLite file (rollback-journal mode) holding table t with
 // n rows and a marker table, and returns its bytes.
-func c33MakeDB(dir string, gen, n int) ([]byte, error) {
+func c33MakeDB(dir string, gen, n int, fk bool) ([]byte, error) {
 	c33RegOnce.Do(func() { sql.Register("verif-ops-gen", &sqlite3.SQLiteDriver{}) })
 	p := filepath.Join(dir, fmt.Sprintf("load-%d.sqlite", gen))
 	os.Remove(p)
@@ -198,6 +282,10 @@ func c33MakeDB(dir string, gen, n int) ([]byte, error) {
 	stmts := []string{c33Schema, fmt.Sprintf("CREATE TABLE loaded%d (g INTEGER)", gen), fmt.Sprintf("INSERT INTO loaded%d VALUES(%d)", gen, gen)}
 	for i := 0; i < n; i++ {
 		stmts = append(stmts, c33Insert(1000000*gen+i))
+	}
+	if fk {
+		stmts = append(stmts, c33FKSchema...)
+		stmts = append(stmts, fmt.Sprintf("INSERT INTO parent(name) VALUES('loaded-%d')", gen), "INSERT INTO child(pid,v) VALUES(1,1)")
 	}
 	for _, q := range stmts {
 		if _, err := db.Exec(q); err != nil {
@@ -212,29 +300,50 @@ func c33MakeDB(dir string, gen, n int) ([]byte, error) {
 	return os.ReadFile(p)
 }
 
-func c33ExecMulti(s *sim.Sim, n *node.Node, stmts []string, tx bool) bool {
-	ok := false
+// c33ExecMulti returns ok (request went through the log) and the number of
+// statements that came back with a statement-level error.
+func c33ExecMulti(s *sim.Sim, n *node.Node, stmts []string, tx bool) (bool, int) {
+	ok, rejected := false, 0
 	s.Do("exec-multi "+n.ID, 60*time.Second, func() {
 		er := &proto.ExecuteRequest{Request: &proto.Request{Transaction: tx}}
 		for _, q := range stmts {
 			er.Request.Statements = append(er.Request.Statements, &proto.Statement{Sql: q})
 		}
-		_, _, err := n.Store.Execute(context.Background(), er)
+		res, _, err := n.Store.Execute(context.Background(), er)
 		ok = err == nil
+		for _, r := range res {
+			if r.GetError() != "" || (r.GetE() != nil && r.GetE().Error != "") {
+				rejected++
+			}
+		}
 	})
-	return ok
+	return ok, rejected
 }
 
 // ---------------------------------------------------------------- run
 
 type c33Victim struct {
-	idx     int
+	orig    *node.Node
 	pre     string
 	mayTail bool
 	n       *node.Node // node object used for the restart (may differ from the original when moved)
 }
 
-func c33Run(c *core.Ctx, raw json.RawMessage) {
+type c33Run struct {
+	c        *core.Ctx
+	s        *sim.Sim
+	sc       *c33Scenario
+	members  []*node.Node // nodes of the current cluster (1-based positions in op selectors)
+	nextK    int
+	loadGen  int
+	lagging  bool // some node may be behind: only inserts from now on (so that "contains" is well defined)
+	armDir   string
+	armPoint string
+	armImg   string
+	armed    bool
+}
+
+func c33RunFn(c *core.Ctx, raw json.RawMessage) {
 	var sc c33Scenario
 	if err := json.Unmarshal(raw, &sc); err != nil {
 		panic(err)
@@ -246,55 +355,135 @@ func c33Run(c *core.Ctx, raw json.RawMessage) {
 	if sc.Nodes < 1 {
 		sc.Nodes = 1
 	}
+	x := &c33Run{c: c, s: s, sc: &sc}
+	// crash images inside RecoverNode: the hook copies the directory synchronously
+	// (the recovering process is a single goroutine at that point, nothing else of
+	// that node runs yet)
+	verifx.InstallHooks(x.hit, nil, nil, nil, nil)
+	defer verifx.ResetHooks()
 	if err := s.Boot(sc.Nodes, sc.Knobs, nil); err != nil {
 		c.Discard("boot-failed: " + err.Error())
 		return
 	}
-	if ok, _, _ := opsExec(s, opsSettle(s, 0), c33Schema); !ok {
+	for i := 1; i <= sc.Nodes; i++ {
+		x.members = append(x.members, s.Nodes[i])
+	}
+	schema := []string{c33Schema}
+	if sc.Knobs.FKConstraints {
+		schema = append(schema, c33FKSchema...)
+	}
+	if ok, rej := c33ExecMulti(s, opsSettle(s, 0), schema, false); !ok || rej > 0 {
 		c.Discard("schema-failed")
 		return
 	}
-	nextK, loadGen := 0, 0
-	lagging := false // some node may be behind: only inserts from now on (so that "contains" is well defined)
+	opsSettle(s, 0)
 	restores0, recov0 := opsStat("num_restores"), opsStat("num_recoveries")
 	snaps0 := opsStat("num_snapshots")
+	defer func() {
+		c.ProbeN("recoveries_performed", int(opsStat("num_recoveries")-recov0))
+		c.ProbeN("snapshot_restores", int(opsStat("num_restores")-restores0))
+		c.ProbeN("snapshots_taken", int(opsStat("num_snapshots")-snaps0))
+	}()
 
-	for _, op := range sc.Ops {
+	if !x.history(sc.Ops) {
+		return
+	}
+	recovered, functional, ok := x.recoverRound(sc.Rec, 1)
+	if !ok || c.Failed() {
+		return
+	}
+	if sc.Rec2 != nil && functional && len(recovered) > 0 {
+		// ---------------- second round on the recovered cluster
+		x.members = recovered
+		x.lagging = false
+		s.Net.Heal()
+		opsSettle(s, 0)
+		if !x.history(sc.Ops2) {
+			return
+		}
+		rec2 := *sc.Rec2
+		if len(rec2.Victims) == 1 && rec2.Victims[0] == -1 {
+			rec2.Victims, rec2.Peers = nil, nil
+			for i, m := range x.members {
+				rec2.Victims = append(rec2.Victims, i+1)
+				host := 0
+				fmt.Sscanf(m.HostName, "10.0.0.%d", &host)
+				rec2.Peers = append(rec2.Peers, c33Peer{ID: m.ID, Host: host})
+			}
+		}
+		c.Probe("second_round_started")
+		if _, _, ok := x.recoverRound(rec2, 2); ok && !c.Failed() {
+			c.Probe("second_round_recovered")
+		}
+	}
+}
+
+// hit is the verifhook handler: takes the crash image of the armed directory
+// at the armed point, once.
+func (x *c33Run) hit(point string) error {
+	if x.armed && point == x.armPoint {
+		x.armed = false
+		os.RemoveAll(x.armImg)
+		if err := node.CopyTree(x.armDir, x.armImg); err != nil {
+			x.c.Log.Add("crash image failed: %v", err)
+			x.armImg = ""
+		}
+	}
+	return nil
+}
+
+func (x *c33Run) leader() *node.Node { return x.s.Leader() }
+
+// history runs a list of workload ops on the current cluster. false = stop the run.
+func (x *c33Run) history(ops []c33Op) bool {
+	c, s := x.c, x.s
+	for _, op := range ops {
 		if s.Capped || c.Failed() {
 			break
 		}
-		l := s.Leader()
+		l := x.leader()
 		switch op.Kind {
 		case "ins":
 			for k := 0; k < op.N && k < 10 && l != nil; k++ {
-				nextK++
-				if ok, _, _ := opsExec(s, l, c33Insert(nextK)); ok {
+				x.nextK++
+				if ok, _, _ := opsExec(s, l, c33Insert(x.nextK)); ok {
 					c.Probe("writes_acked")
 				}
 			}
-		case "mix":
+		case "mix", "fk":
 			if l == nil {
 				continue
 			}
-			if lagging {
-				nextK++
-				opsExec(s, l, c33Insert(nextK))
+			if x.lagging {
+				x.nextK++
+				opsExec(s, l, c33Insert(x.nextK))
 				continue
 			}
-			if c33ExecMulti(s, l, c33Mix(op.N), op.N%2 == 0) {
+			stmts, tx := c33Mix(op.N), op.N%2 == 0
+			if op.Kind == "fk" {
+				stmts, tx = c33FK(op.N)
+			}
+			ok, rej := c33ExecMulti(s, l, stmts, tx)
+			if ok && op.Kind == "mix" {
 				c.Probe("mixed_writes_acked")
 			}
-			// updates/deletes/DDL are never left in an unapplied tail either (row-wise
+			if ok && op.Kind == "fk" {
+				c.Probe("fk_requests_logged")
+				if rej > 0 {
+					c.Probe("fk_requests_rejected_live")
+				}
+			}
+			// updates/deletes/DDL are never left in an unapplied tail (row-wise
 			// containment is only meaningful for tails of inserts)
 			opsSettle(s, 0)
 		case "async":
 			if l == nil {
 				continue
 			}
-			lagging = true
+			x.lagging = true
 			for k := 0; k < op.N && k < 6; k++ {
-				nextK++
-				q := c33Insert(nextK)
+				x.nextK++
+				q := c33Insert(x.nextK)
 				s.Go("async-w", func() {
 					er := &proto.ExecuteRequest{Request: &proto.Request{Statements: []*proto.Statement{{Sql: q}}}}
 					l.Store.Execute(context.Background(), er)
@@ -306,74 +495,62 @@ func c33Run(c *core.Ctx, raw json.RawMessage) {
 			c.Probe("async_writes_started")
 		case "snap":
 			tgt := l
-			if op.M > 0 && op.M <= sc.Nodes && s.Nodes[op.M].Up {
-				tgt = s.Nodes[op.M]
+			if op.M > 0 && op.M <= len(x.members) && x.members[op.M-1].Up {
+				tgt = x.members[op.M-1]
 			}
 			if tgt == nil {
 				continue
 			}
 			var err error
 			s.Do("snapshot", 60*time.Second, func() { err = tgt.Store.Snapshot(uint64(op.N)) })
-			c.Log.Add("%d snapshot n%d trailing=%d err=%v", s.StepN, tgt.Idx, op.N, err)
+			c.Log.Add("%d snapshot %s@%s trailing=%d err=%v", s.StepN, tgt.ID, tgt.HostName, op.N, err)
 			if err == nil {
 				c.Probe("user_snapshots")
 			}
-		case "load":
-			if l == nil || lagging {
+		case "load", "boot":
+			if l == nil || x.lagging || (op.Kind == "boot" && len(x.members) != 1) {
 				continue
 			}
-			loadGen++
-			data, err := c33MakeDB(s.Dir, loadGen, op.N)
+			x.loadGen++
+			data, err := c33MakeDB(s.Dir, x.loadGen, op.N, x.sc.Knobs.FKConstraints)
 			if err != nil {
 				c.Discard("make-load-db: " + err.Error())
-				return
+				return false
 			}
 			var lerr error
-			s.Do("load", 60*time.Second, func() { lerr = l.Store.Load(context.Background(), &proto.LoadRequest{Data: data}) })
-			c.Log.Add("%d load gen=%d rows=%d err=%v", s.StepN, loadGen, op.N, lerr)
+			if op.Kind == "load" {
+				s.Do("load", 60*time.Second, func() { lerr = l.Store.Load(context.Background(), &proto.LoadRequest{Data: data}) })
+			} else {
+				s.Do("boot", 60*time.Second, func() { _, lerr = l.Store.ReadFrom(strings.NewReader(string(data))) })
+			}
+			c.Log.Add("%d %s gen=%d rows=%d err=%v", s.StepN, op.Kind, x.loadGen, op.N, lerr)
 			if lerr == nil {
-				c.Probe("loads")
+				c.Probe(op.Kind + "s")
 				// a load is never left in an unapplied tail: wait for everybody
 				opsSettle(s, 0)
-			}
-		case "boot":
-			if l == nil || lagging || sc.Nodes != 1 {
-				continue
-			}
-			loadGen++
-			data, err := c33MakeDB(s.Dir, loadGen, op.N)
-			if err != nil {
-				c.Discard("make-load-db: " + err.Error())
-				return
-			}
-			var berr error
-			s.Do("boot", 60*time.Second, func() { _, berr = l.Store.ReadFrom(strings.NewReader(string(data))) })
-			c.Log.Add("%d boot gen=%d rows=%d err=%v", s.StepN, loadGen, op.N, berr)
-			if berr == nil {
-				c.Probe("boots")
 			}
 		case "isolate":
 			if l == nil {
 				continue
 			}
-			var fs []int
-			for i := 1; i <= sc.Nodes; i++ {
-				if i != l.Idx {
-					fs = append(fs, i)
+			var fs []*node.Node
+			for _, m := range x.members {
+				if m != l && m.Up {
+					fs = append(fs, m)
 				}
 			}
 			if len(fs) == 0 {
 				continue
 			}
 			tgt := fs[op.N%len(fs)]
-			opsIsolate(s, tgt)
+			x.isolate(tgt)
 			if !opsQuorumReachable(s, l) {
 				s.Net.Heal()
 				continue
 			}
-			lagging = true
+			x.lagging = true
 			c.Fault("isolate-follower")
-			c.Log.Add("%d isolate n%d", s.StepN, tgt)
+			c.Log.Add("%d isolate %s@%s", s.StepN, tgt.ID, tgt.HostName)
 		case "heal":
 			s.Net.Heal()
 			c.Fault("heal")
@@ -382,43 +559,57 @@ func c33Run(c *core.Ctx, raw json.RawMessage) {
 			s.RunFor(time.Duration(op.Ms) * time.Millisecond)
 		}
 	}
-	if c.Failed() || s.Capped {
-		return
-	}
+	return !c.Failed() && !s.Capped
+}
 
-	// ---------------- shutdown / crash of the victims
-	rec := sc.Rec
-	var victims []*c33Victim
-	seen := map[int]bool{}
-	for _, v := range rec.Victims {
-		if v == 0 {
-			if l := s.Leader(); l != nil {
-				v = l.Idx
-			} else {
-				v = 1
-			}
+func (x *c33Run) isolate(n *node.Node) {
+	var rest []string
+	for _, m := range x.s.Nodes[1:] {
+		if m.HostName != n.HostName {
+			rest = append(rest, m.HostName)
 		}
-		if v < 1 || v > sc.Nodes || seen[v] || !s.Nodes[v].Up {
+	}
+	x.s.Net.Partition([]string{n.HostName}, rest)
+}
+
+// recoverRound shuts the victims down (or crashes them), recovers them with a
+// peers file and applies the oracle. It returns the recovered node objects and
+// whether they formed a working cluster; ok=false means the run ends here.
+func (x *c33Run) recoverRound(rec c33Recovery, round int) (recovered []*node.Node, functional, ok bool) {
+	c, s := x.c, x.s
+	tag := fmt.Sprintf("round %d", round)
+	var victims []*c33Victim
+	seen := map[*node.Node]bool{}
+	for _, v := range rec.Victims {
+		var n *node.Node
+		if v == 0 {
+			if n = x.leader(); n == nil {
+				n = x.members[0]
+			}
+		} else if v >= 1 && v <= len(x.members) {
+			n = x.members[v-1]
+		}
+		if n == nil || seen[n] || !n.Up {
 			continue
 		}
-		seen[v] = true
-		victims = append(victims, &c33Victim{idx: v})
+		seen[n] = true
+		victims = append(victims, &c33Victim{orig: n})
 	}
 	if len(victims) == 0 {
-		c.Res.Trivial = true
-		return
+		c.Res.Trivial = round == 1
+		return nil, false, false
 	}
 	// cut every victim off first: from here on its state only changes by its own shutdown
 	for _, v := range victims {
-		opsIsolate(s, v.idx)
+		x.isolate(v.orig)
 	}
 	synctest.Wait()
 	for _, v := range victims {
-		n := s.Nodes[v.idx]
+		n := v.orig
 		rs := n.Store.VerifReadState()
 		v.mayTail = rs.LastLogIndex > rs.RaftAppliedIndex
-		c.Log.Add("%d victim n%d leader=%v last-log=%d raft-applied=%d fsm=%d commit=%d may-have-unapplied-tail=%v mode=%s",
-			s.StepN, v.idx, rs.Leader, rs.LastLogIndex, rs.RaftAppliedIndex, rs.FSMIndex, rs.CommitIndex, v.mayTail, rec.Mode)
+		c.Log.Add("%d %s victim %s@%s leader=%v last-log=%d raft-applied=%d fsm=%d commit=%d may-have-unapplied-tail=%v mode=%s",
+			s.StepN, tag, n.ID, n.HostName, rs.Leader, rs.LastLogIndex, rs.RaftAppliedIndex, rs.FSMIndex, rs.CommitIndex, v.mayTail, rec.Mode)
 		if v.mayTail {
 			c.Probe("victim_with_unapplied_tail")
 		} else {
@@ -429,29 +620,33 @@ func c33Run(c *core.Ctx, raw json.RawMessage) {
 		case "crash":
 			v.pre, err = s.DumpNode(n)
 			if err == nil {
-				err = s.Crash(v.idx)
+				for i, m := range s.Nodes {
+					if m == n {
+						err = s.Crash(i)
+					}
+				}
 			}
 		default:
 			n.Store.NoSnapshotOnClose = rec.Mode == "stop-nosnap"
 			var serr error
-			if !s.Do(fmt.Sprintf("stop-victim-%d", v.idx), 120*time.Second, func() { serr = n.Stop() }) || serr != nil {
+			if !s.Do("stop-victim "+n.ID, 120*time.Second, func() { serr = n.Stop() }) || serr != nil {
 				c.Discard(fmt.Sprintf("victim-stop-failed: %v", serr))
-				return
+				return nil, false, false
 			}
 			c.Fault("graceful-stop")
 			v.pre, err = s.DumpNode(n) // files at rest
 		}
 		if err != nil {
 			c.Discard("victim-capture-failed: " + err.Error())
-			return
+			return nil, false, false
 		}
 	}
 	// every other node goes away as well (quorum is lost for good: that is when manual recovery is used)
-	for i := 1; i <= sc.Nodes; i++ {
-		if !seen[i] && s.Nodes[i].Up {
-			n := s.Nodes[i]
-			n.Store.NoSnapshotOnClose = true
-			s.Do(fmt.Sprintf("stop-other-%d", i), 120*time.Second, func() { n.Stop() })
+	for _, n := range s.Nodes[1:] {
+		if !seen[n] && n.Up {
+			nn := n
+			nn.Store.NoSnapshotOnClose = true
+			s.Do("stop-other "+nn.ID, 120*time.Second, func() { nn.Stop() })
 		}
 	}
 	s.Net.Heal()
@@ -463,15 +658,17 @@ func c33Run(c *core.Ctx, raw json.RawMessage) {
 		Address  string `json:"address"`
 		NonVoter bool   `json:"non_voter"`
 	}
+	phost := 0
+	fmt.Sscanf(primary.orig.HostName, "10.0.0.%d", &phost)
 	var file []entry
 	var want []string
 	for _, p := range rec.Peers {
 		id, host := p.ID, p.Host
 		if id == "" {
-			id = s.Nodes[primary.idx].ID
+			id = primary.orig.ID
 		}
 		if host == 0 {
-			host = primary.idx
+			host = phost
 		}
 		e := entry{ID: id, Address: fmt.Sprintf("10.0.0.%d:%d", host, node.RaftPort), NonVoter: p.NonVoter}
 		file = append(file, e)
@@ -484,16 +681,16 @@ func c33Run(c *core.Ctx, raw json.RawMessage) {
 	sort.Strings(want)
 	wantCfg := strings.Join(want, ",")
 	fileBytes, _ := json.MarshalIndent(file, "", "  ")
-	c.Log.Add("%d peers file: %s", s.StepN, wantCfg)
+	c.Log.Add("%d %s peers file: %s", s.StepN, tag, wantCfg)
 
 	// ---------------- reopen
 	for k, v := range victims {
-		old := s.Nodes[v.idx]
+		old := v.orig
 		v.n = old
 		if k == 0 && rec.MoveTo > 0 {
 			// same identity and directory, new address
 			for len(s.Nodes) <= rec.MoveTo {
-				s.AddNode(sc.Knobs)
+				s.AddNode(x.sc.Knobs)
 			}
 			nn := s.Nodes[rec.MoveTo]
 			nn.ID, nn.Dir = old.ID, old.Dir
@@ -502,24 +699,53 @@ func c33Run(c *core.Ctx, raw json.RawMessage) {
 		}
 		if err := os.MkdirAll(filepath.Join(old.Dir, "raft"), 0o755); err != nil {
 			c.Discard("mkdir: " + err.Error())
-			return
+			return nil, false, false
 		}
 		if err := os.WriteFile(filepath.Join(old.Dir, "raft", "peers.json"), fileBytes, 0o644); err != nil {
 			c.Discard("write peers: " + err.Error())
-			return
+			return nil, false, false
 		}
 	}
-	for _, v := range victims {
-		var err error
+	for k, v := range victims {
 		nn := v.n
-		ok := s.Do(fmt.Sprintf("recover-open n%d", v.idx), 300*time.Second, func() { err = nn.Start() })
-		if !ok || err != nil {
-			c.Violate("recover-open-failed", "node n%d did not reopen with a valid peers file [%s] after %s (finished=%v): %v", v.idx, wantCfg, rec.Mode, ok, err)
-			return
+		open := func(what string) bool {
+			var err error
+			fin := s.Do(fmt.Sprintf("%s %s@%s", what, nn.ID, nn.HostName), 300*time.Second, func() { err = nn.Start() })
+			if !fin || err != nil {
+				c.Violate("recover-open-failed", "%s: node %s did not reopen with a valid peers file [%s] after %s (%s, finished=%v): %v", tag, nn.ID, wantCfg, rec.Mode, what, fin, err)
+				return false
+			}
+			return true
+		}
+		if k == 0 && rec.CrashAt != "" {
+			// the process dies inside the recovery: image at the hook, the attempt itself
+			// is thrown away, and the node is started again on the image
+			x.armDir, x.armPoint, x.armImg, x.armed = nn.Dir, rec.CrashAt, nn.Dir+".rimg", true
+			if !open("recover-open(to be crashed at " + rec.CrashAt + ")") {
+				return nil, false, false
+			}
+			if x.armed || x.armImg == "" {
+				x.armed = false // point not reached (or image failed): the first attempt simply counts
+				c.Probe("crash_in_recovery_point_not_reached")
+			} else {
+				nn.Store.NoSnapshotOnClose = true
+				s.Do("discard-attempt "+nn.ID, 120*time.Second, func() { nn.Stop() })
+				os.RemoveAll(nn.Dir)
+				if err := os.Rename(x.armImg, nn.Dir); err != nil {
+					c.Discard("image-rename: " + err.Error())
+					return nil, false, false
+				}
+				c.Fault("crash-in-recovery@" + rec.CrashAt)
+				c.Log.Add("%d %s crash image at %s, starting again", s.StepN, tag, rec.CrashAt)
+				if !open("recover-open-after-crash-in-recovery") {
+					return nil, false, false
+				}
+			}
+		} else if !open("recover-open") {
+			return nil, false, false
 		}
 		c.Fault("recovered-" + rec.Mode)
 	}
-	c.ProbeN("recoveries_performed", int(opsStat("num_recoveries")-recov0))
 	synctest.Wait()
 
 	// ---------------- oracle: configuration and data right after reopening
@@ -527,35 +753,39 @@ func c33Run(c *core.Ctx, raw json.RawMessage) {
 		for _, v := range victims {
 			got, _, err := opsConfig(v.n)
 			if err != nil {
-				c.Violate("recover-config", "n%d: cannot read configuration %s: %v", v.idx, when, err)
+				c.Violate("recover-config", "%s %s: cannot read configuration %s: %v", tag, v.n.ID, when, err)
 				return false
 			}
 			if got != wantCfg {
-				c.Violate("recover-config", "n%d %s: configuration is [%s] but the peers file says [%s]", v.idx, when, got, wantCfg)
+				c.Violate("recover-config", "%s %s %s: configuration is [%s] but the peers file says [%s]", tag, v.n.ID, when, got, wantCfg)
 				return false
 			}
 		}
 		return true
 	}
 	if !check("right after reopening") {
-		return
+		return nil, false, false
 	}
 	for _, v := range victims {
 		post, err := s.DumpNode(v.n)
 		if err != nil {
-			c.Violate("recover-data", "n%d: cannot dump the recovered database: %v", v.idx, err)
-			return
+			c.Violate("recover-data", "%s %s: cannot dump the recovered database: %v", tag, v.n.ID, err)
+			return nil, false, false
 		}
 		if !v.mayTail {
 			if post != v.pre {
-				c.Violate("recover-data", "n%d (%s, nothing unapplied): recovered database differs from what the node had applied: %s", v.idx, rec.Mode, sim.FirstDiff(v.pre, post))
-				return
+				class := "recover-data"
+				if miss := c33Missing(v.pre, post); miss == "" {
+					class = "recover-data-extra" // nothing lost, but the node holds more than it had applied
+				}
+				c.Violate(class, "%s %s (%s, nothing unapplied, fk=%v): recovered database differs from what the node had applied: %s", tag, v.n.ID, rec.Mode, x.sc.Knobs.FKConstraints, sim.FirstDiff(v.pre, post))
+				return nil, false, false
 			}
 			c.Probe("recovered_equal")
 		} else {
 			if miss := c33Missing(v.pre, post); miss != "" {
-				c.Violate("recover-data", "n%d (%s, unapplied tail): recovered database lacks applied data: %s", v.idx, rec.Mode, miss)
-				return
+				c.Violate("recover-data", "%s %s (%s, unapplied tail): recovered database lacks applied data: %s", tag, v.n.ID, rec.Mode, miss)
+				return nil, false, false
 			}
 			if post == v.pre {
 				c.Probe("recovered_equal_despite_tail")
@@ -564,9 +794,10 @@ func c33Run(c *core.Ctx, raw json.RawMessage) {
 			}
 		}
 		if _, err := os.Stat(filepath.Join(v.n.Dir, "raft", "peers.json")); err == nil {
-			c.Violate("recover-config", "n%d: raft/peers.json still present after a successful recovery (the next restart would recover again)", v.idx)
-			return
+			c.Violate("recover-config", "%s %s: raft/peers.json still present after a successful recovery (the next restart would recover again)", tag, v.n.ID)
+			return nil, false, false
 		}
+		recovered = append(recovered, v.n)
 	}
 
 	// ---------------- if the recovered voters are a quorum of the file: it must work as a cluster
@@ -582,45 +813,46 @@ func c33Run(c *core.Ctx, raw json.RawMessage) {
 			}
 		}
 	}
+	marker := 9000000 + round
 	if voters > 0 && upVoters >= voters/2+1 {
 		var l *node.Node
 		s.RunUntil(func() bool { l = s.Leader(); return l != nil }, 60*time.Second)
 		if l == nil {
-			c.Violate("recover-no-leader", "recovered voters (%d of %d in the peers file) did not elect a leader within 60s", upVoters, voters)
-			return
+			c.Violate("recover-no-leader", "%s: recovered voters (%d of %d in the peers file) did not elect a leader within 60s", tag, upVoters, voters)
+			return nil, false, false
 		}
-		ok, _, err := opsExec(s, l, c33Insert(9000001))
-		if !ok {
-			c.Violate("recover-write-failed", "write on recovered leader n%s failed: %v", l.ID, err)
-			return
+		wok, _, err := opsExec(s, l, c33Insert(marker))
+		if !wok {
+			c.Violate("recover-write-failed", "%s: write on recovered leader %s failed: %v", tag, l.ID, err)
+			return nil, false, false
 		}
 		opsSettle(s, 500*time.Millisecond)
 		if !check("after a leader was elected and a write committed") {
-			return
+			return nil, false, false
 		}
-		// every recovered node that can hear the leader must now hold the new row on top of its data
+		// every recovered node must now hold the new row on top of its data
 		for _, v := range victims {
 			d, err := s.DumpNode(v.n)
-			if err != nil || !strings.Contains(d, "|I9000001|") {
-				c.Violate("recover-data", "n%d: write after recovery not applied (err=%v)", v.idx, err)
-				return
+			if err != nil || !strings.Contains(d, fmt.Sprintf("|I%d|", marker)) {
+				c.Violate("recover-data", "%s %s: write after recovery not applied (err=%v)", tag, v.n.ID, err)
+				return nil, false, false
 			}
 			if miss := c33Missing(v.pre, d); miss != "" {
-				c.Violate("recover-data", "n%d: after recovery and one more write the database lacks applied data: %s", v.idx, miss)
-				return
+				c.Violate("recover-data", "%s %s: after recovery and one more write the database lacks applied data: %s", tag, v.n.ID, miss)
+				return nil, false, false
 			}
 		}
 		c.Probe("recovered_cluster_functional")
+		functional = true
 	} else {
 		s.RunFor(2 * time.Second)
 		if !check("2s after reopening (no quorum of voters is up)") {
-			return
+			return nil, false, false
 		}
 		c.Probe("recovered_without_quorum")
 	}
-	c.ProbeN("snapshot_restores", int(opsStat("num_restores")-restores0))
-	c.ProbeN("snapshots_taken", int(opsStat("num_snapshots")-snaps0))
-	c.Sig(fmt.Sprintf("%s/%d/%v/%d", rec.Mode, len(victims), primary.mayTail, len(primary.pre)))
+	c.Sig(fmt.Sprintf("r%d/%s/%d/%v/%d/%s", round, rec.Mode, len(victims), primary.mayTail, len(primary.pre), rec.CrashAt))
+	return recovered, functional, true
 }
 
 // c33Missing returns a description of the first schema object or row of dump
@@ -646,5 +878,5 @@ func c33Missing(pre, post string) string {
 }
 
 func init() {
-	core.Register(&core.Prop{ID: "C33", Bubble: true, Gen: c33Gen, Run: c33Run})
+	core.Register(&core.Prop{ID: "C33", Bubble: true, Gen: c33Gen, Run: c33RunFn})
 }
